@@ -41,7 +41,7 @@ def setup(obs):
 
 
 QKINDS = ['bbox', 'boundary', 'boundary', 'far', 'lattice', 'mixed']
-FORMS = [('scalar', None), ('empty', (0,)), ('1d', None), ('1d', None), ('2d', None), ('3d', (2, 1, 3)),
+FORMS = [('scalar', None), ('empty', (0,)), ('empty', (0, 3)), ('empty', (2, 0, 4)), ('empty', (3, 0)), ('1d', None), ('1d', None), ('2d', None), ('3d', (2, 1, 3)),
          ('2d-transposed', None), ('2d-fortran', None), ('1d-strided', None), ('2d-sliced', None), ('1d-reversed', None),
          ('one-element', (1,)), ('one-element', (1, 1)), ('one-element', (1, 1, 1)), ('broadcast', None), ('readonly', None), ('masked', None)]
 DTYPES = ['float64', 'float64', 'float64', 'float32', 'int64', 'int32']
@@ -176,7 +176,7 @@ def make_queries(region, q):
         xs, ys = x[0].item(), y[0].item()
         return regions.PixCoord(xs, ys)
     if form == 'empty':
-        return regions.PixCoord(x[:0], y[:0])
+        return regions.PixCoord(x[:0].reshape(q['shape'] or (0,)), y[:0].reshape(q['shape'] or (0,)))
     if form == 'one-element':
         return regions.PixCoord(x[:1].reshape(q['shape']), y[:1].reshape(q['shape']))
     if form == '2d':
